@@ -106,11 +106,12 @@ def repair_depth(src, limit=MAX_DEPTH):
             run = 0
         elif ch in PREFIX_OPS or ch == "=" or ch == "?":
             run += 1
-            if run <= 12:
+            kept = run <= 12
+            if kept:
                 out.append(ch)
             if ch == "?":
                 tern += 1
-                if tern > limit:
+                if tern > limit and kept:
                     out.pop()
         elif ch in ";\n":
             tern = 0
@@ -330,7 +331,8 @@ def _front_eval(task):
 ADV = ["undefined", "null", "NaN", "Infinity", "-Infinity", "-1", "0", "-0", "1", "2", "0.5", "1.9", "-1.9", "2147483648", "4294967296",
        "9007199254740992", "1e21", '"1"', '"x"', '""', "true", "({})", "[]", "[1]", "[1,2]", "(function(){})", "({valueOf:function(){return 1}})",
        '({toString:function(){return "2"}})', "/a/g", "new Uint8Array(2)", "Symbol", "({length: 3})", "1e300", '"abc"',
-       '"\u00b2"', '"$\u00b2"', '"$1\u00b3"', '"\u0663"', '"\uff11"', '"$&$`$\'$1$01$$"', '"\ud800"', '"\u0000"', '"a"', '"1e"', '"0x"', "-2147483649", "255.5"]
+       '"\u00b2"', '"$\u00b2"', '"$1\u00b3"', '"\u0663"', '"\uff11"', '"$&$`$\'$1$01$$"', '"\ud800"', '"\u0000"', '"a"', '"1e"', '"0x"', "-2147483649", "255.5",
+       '"1".repeat(4400)', '"-" + "9".repeat(401)', '"0x" + "f".repeat(4400)']
 
 RECEIVERS = {
     "number": "(1.5)", "int": "(7)", "nan": "(NaN)", "string": '"abc"', "empty-string": '""', "bool": "(true)", "object": "({a:1})",
